@@ -35,7 +35,7 @@ Lemma ownp_drop H j s :
   inv s -> jm (x_unords s) j = false ->
   (forall id x, r_link j = Some id -> In x (all_jobs s) -> r_link x <> Some id) ->
   (forall u, In u (x_unords s) -> r_link j = Some (u_id u) -> u_inq u = true -> u_complete u = false ->
-     fst (u_base u) < d_bit (x_parser_bs s) + HDR_MIN) ->
+     orph s (fst (u_base u))) ->
   ownp H (j :: all_jobs s) s ->
   ownp H (all_jobs s) (set_unords (drop_link (r_link j) (x_unords s)) s).
 Proof.
@@ -162,9 +162,9 @@ Proof.
     match goal with |- context [add_run _ ?x] => set (sf := x) end.
     assert (EF : x_order_q sf = x_order_q st /\ x_next sf = x_next st /\ x_emit_q sf = x_emit_q st /\ x_running sf = x_running st /\
                  x_reord_q sf = x_reord_q st /\ x_retr_q sf = x_retr_q st /\ x_parser_bs sf = x_parser_bs st /\
-                 x_parsing_done sf = x_parsing_done st).
+                 x_parsing_done sf = x_parsing_done st /\ x_head_offs sf = x_head_offs st).
     { subst sf. destruct (r_link j); xs; auto 10. }
-    destruct EF as (F1 & F2 & F3 & F4 & F5 & F6 & F7 & F8).
+    destruct EF as (F1 & F2 & F3 & F4 & F5 & F6 & F7 & F8 & F9).
     assert (USub : forall u, In u (x_unords sf) -> In u (x_unords st)).
     { subst sf. destruct (r_link j); xs; auto. intros u Hu. unfold del_unord in Hu. apply filter_In in Hu. tauto. }
     assert (UDel : forall u, In u (x_unords sf) -> r_link j <> Some (u_id u)).
@@ -196,8 +196,9 @@ Proof.
       destruct (D u (USub u Hu') Cu) as (x & [<-|X1] & X2); [|exists x; auto].
       exfalso. simpl in X2. exact (UDel u Hu' X2).
     + intros u Hu Qu Cu. assert (Hu' : In u (x_unords sf)) by (subst st'; xs in Hu; exact Hu).
-      replace (x_parser_bs st') with (x_parser_bs st) by (subst st'; xs; auto).
-      destruct (E u (USub u Hu') Qu Cu) as [L|L]; [left; auto|right; auto].
+      destruct (E u (USub u Hu') Qu Cu) as [L|L]; [left; auto|right].
+      unfold orph in *. replace (x_next st') with (x_next st) by (subst st'; xs; auto).
+      replace (x_head_offs st') with (x_head_offs st) by (subst st'; xs; auto). exact L.
     + replace (x_parsing_done st') with (x_parsing_done st) by (subst st'; xs; auto). intro PD'. specialize (F PD').
       apply Forall_forall. intros u Hu. rewrite Forall_forall in F. apply F. apply USub. subst st'; xs in Hu; exact Hu.
     + replace (x_parsing_done st') with (x_parsing_done st) by (subst st'; xs; auto).
@@ -266,8 +267,7 @@ Proof.
       * intros id0 x L0 Hx. rewrite EL in L0. inversion L0; subst id0. rewrite AJ3 in Hx. apply NL; auto.
       * intros u Hu LJ Qu Cu. destruct (US u Hu) as (u0 & H0 & E1 & E2 & _).
         rewrite EL in LJ. inversion LJ as [Hid]. rewrite E2, (UB u0 H0 ltac:(congruence)).
-        pose proof (i_parser _ I3 PD3) as IP. pose proof (o_pok _ _ _ OW3 PD3) as OK3.
-        unfold dbs_ok, dbs_norm, HDR_MIN in *. clear - J1 Hbit Hn SL IP OK3. lia.
+        right. apply N.ltb_lt in SL. unfold dbs_norm in Hn. clear - J1 Hbit Hn SL. lia.
     + inversion Hst; subst st'. clear Hst. xs. rewrite OQ3, NX3. split; [|auto].
       assert (OW4 : ownp H (mkrjob (r_base j) cur (Some id) :: all_jobs st) st) by (apply (ownp_job_upd H j); auto).
       eapply ownp_view; [| |exact OW4]; [constructor; unfold estage; xs; auto|].
